@@ -12,6 +12,8 @@ import (
 	"math/rand"
 	"strconv"
 	"strings"
+	"sync"
+	"sync/atomic"
 	"time"
 
 	"github.com/absfs/absnfs"
@@ -20,7 +22,18 @@ import (
 func init() {
 	checks["C18"] = func(r *Result, rng *rand.Rand, th bool) { checkLimiter(r, rng, th, "C18") }
 	checks["C19"] = func(r *Result, rng *rand.Rand, th bool) { checkLimiter(r, rng, th, "C19") }
-	replays["C18"] = opsReplay("ratelimit", runRlOps, func(r *Result, ops, impl []string) { rlOracle(r, ops, impl, "C18") })
+	c18ops := opsReplay("ratelimit", runRlOps, func(r *Result, ops, impl []string) { rlOracle(r, ops, impl, "C18") })
+	replays["C18"] = func(r *Result, raw json.RawMessage) {
+		var rp struct {
+			Ops []string `json:"ops"`
+		}
+		json.Unmarshal(raw, &rp)
+		if len(rp.Ops) > 0 && rp.Ops[0] == "concurrent-first-requests" {
+			concurrentFirstRequests(r, 4000)
+			return
+		}
+		c18ops(r, raw)
+	}
 	c19ops := opsReplay("ratelimit", runRlOps, func(r *Result, ops, impl []string) { rlOracle(r, ops, impl, "C19") })
 	replays["C19"] = func(r *Result, raw json.RawMessage) {
 		var rp struct {
@@ -502,6 +515,13 @@ func checkLimiter(r *Result, rng *rand.Rand, thorough bool, prop string) {
 	if prop == "C19" {
 		otherClientsOverConnections(r)
 	}
+	if prop == "C18" {
+		rounds := 300
+		if thorough {
+			rounds = 4000
+		}
+		concurrentFirstRequests(r, rounds)
+	}
 	compareWithModel(r, "ratelimit", cases, impl, runRlOps)
 }
 
@@ -558,4 +578,50 @@ func peersScenario(r *Result, g []string) {
 		s.Close()
 		absnfs.VerifClockOff()
 	}
+}
+
+// concurrentFirstRequests: "each rate limit admits at most burst + rate x elapsed" also when the first requests of a
+// connection arrive together (AllowRequest is exported and called from every connection goroutine; a client may
+// multiplex). Per-connection limit 1/s, burst 1, everything else generous; per round a fresh connection ID and 32
+// simultaneous first requests on it: however the race for creating the connection's bucket goes, one bucket judges
+// them all.
+func concurrentFirstRequests(r *Result, rounds int) {
+	absnfs.VerifClockOff()
+	cfg := absnfs.DefaultRateLimiterConfig()
+	cfg.GlobalRequestsPerSecond, cfg.PerIPRequestsPerSecond, cfg.PerIPBurstSize = 10000000, 10000000, 10000000
+	cfg.PerConnectionRequestsPerSecond, cfg.PerConnectionBurstSize = 1, 1
+	rl := absnfs.NewRateLimiter(cfg)
+	worst := 0
+	for round := 0; round < rounds; round++ {
+		id := fmt.Sprintf("conn-first-%d", round)
+		var admitted int32
+		start := make(chan struct{})
+		var wg sync.WaitGroup
+		t0 := time.Now()
+		for g := 0; g < 32; g++ {
+			wg.Add(1)
+			go func() {
+				defer wg.Done()
+				<-start
+				if rl.AllowRequest("10.9.9.9", id) {
+					atomic.AddInt32(&admitted, 1)
+				}
+			}()
+		}
+		close(start)
+		wg.Wait()
+		// burst 1 + 1/s x elapsed, the elapsed time rounded up generously
+		bound := 1 + int(time.Since(t0)/time.Second) + 1
+		if int(admitted) > worst {
+			worst = int(admitted)
+		}
+		if int(admitted) > bound {
+			r.violate(Violation{Class: "C18/concurrent-first-requests", What: fmt.Sprintf("per-connection limit 1/s burst 1: %d of 32 simultaneous first requests of one connection were admitted within %v (bound %d)", admitted, time.Since(t0).Round(time.Millisecond), bound),
+				Ops: []string{"concurrent-first-requests"}})
+			break
+		}
+	}
+	r.noteCase("concurrent-first-requests", true)
+	r.Histogram["concurrent-first-requests-rounds"] += rounds
+	r.Histogram["concurrent-first-requests-worst-admitted"] = worst
 }
